@@ -106,6 +106,50 @@ def build_harness():
         return {"wall_s": time.time() - t0}
 
 
+ASAN_TARGET = os.path.join(CACHE, "harness-asan-target")
+ASAN_BIN = os.path.join(ASAN_TARGET, "x86_64-unknown-linux-gnu", "debug", "sodg-verif-harness")
+
+
+def build_harness_asan():
+    """the same harness on the nightly toolchain with AddressSanitizer (thorough tier of C07 only)"""
+    with Lock("harness-asan.lock"):
+        hdir = os.path.join(VERIF, "harness")
+        env = dict(ENV)
+        env.update({"CARGO_TARGET_DIR": ASAN_TARGET, "RUSTFLAGS": "-Zsanitizer=address"})
+        t0 = time.time()
+        r = subprocess.run(["cargo", "+nightly", "build", "--offline", "--quiet", "--target", "x86_64-unknown-linux-gnu"],
+                           cwd=hdir, env=env, capture_output=True, text=True)
+        if r.returncode != 0:
+            raise BuildError("ASan harness build failed:\n" + r.stderr[-4000:])
+        return {"wall_s": time.time() - t0}
+
+
+def run_impl_asan(histories, timeout=3600, shards=NCPU):
+    """impl traces under AddressSanitizer; returns (traces, problems)"""
+    shards = max(1, min(shards, len(histories)))
+    chunks = [histories[i::shards] for i in range(shards)]
+    env = dict(os.environ, ASAN_OPTIONS="detect_leaks=0:abort_on_error=0")
+    traces, problems = {}, []
+
+    def job(chunk):
+        text = "".join(h.text() for h in chunk)
+        try:
+            r = subprocess.run([ASAN_BIN], input=text, capture_output=True, text=True, timeout=timeout, env=env)
+            return chunk, r.returncode, r.stdout, r.stderr
+        except subprocess.TimeoutExpired as e:
+            return chunk, "timeout", "", ""
+
+    with concurrent.futures.ThreadPoolExecutor(max_workers=NCPU) as ex:
+        for chunk, rc, out, err in ex.map(job, chunks):
+            tr = parse_trace(out)
+            traces.update(tr)
+            if rc != 0:
+                missing = [h.hid for h in chunk if h.hid not in tr]
+                problems.append({"rc": rc, "stderr": err[-3000:], "first_unfinished": missing[0] if missing else None,
+                                 "last_started": list(tr.keys())[-1] if tr else None})
+    return traces, problems
+
+
 # ---------------------------------------------------------------- histories
 
 class History:
@@ -365,6 +409,21 @@ def audit_sources():
                     continue
                 bad.append("%s:%d: %s" % (os.path.basename(f), ln, w))
     return bad
+
+
+def coqchk_property(pid):
+    """independent re-check of the compiled property file and everything it depends on (thorough tier)"""
+    t0 = time.time()
+    r = subprocess.run(["coqchk", "-silent", "-o", "-Q", "theories", "Sodg", "Sodg.P_%s" % pid],
+                       cwd=COQ_DIR, capture_output=True, text=True, timeout=3600)
+    out = r.stdout + r.stderr
+    m = re.search(r"\* Axioms:\s*(.*?)\n\s*\n", out, re.S)
+    axioms = m.group(1).strip() if m else "?"
+    ok = r.returncode == 0 and axioms == "<none>" and "type-in-type: <none>" in out \
+        and "unsafe (co)fixpoints: <none>" in out and "positivity is assumed: <none>" in out
+    return {"ok": ok, "axioms": axioms, "wall_s": round(time.time() - t0, 1),
+            "cmd": "cd /verif/coq && coqchk -silent -o -Q theories Sodg Sodg.P_%s" % pid,
+            "tail": out[-600:] if not ok else ""}
 
 
 def audit_property_file(pid):
